@@ -36,12 +36,14 @@ VARIABLES accepted,    \* ghost: <<[t, r]>> the accepted adds, in order
 vars == <<accepted, tree, finder, nadds, last>>
 
 Seg(i) == TS[i]
-(* per-segment facts, tabulated once (constant level) *)
-KindOf  == [i \in DOMAIN TS |-> Kind(TS[i])]
-RankOf  == [i \in DOMAIN TS |-> Rank(TS[i])]
-ShapeOf == [i \in DOMAIN TS |-> Shape(TS[i])]
-PathSegs   == {i \in DOMAIN TS : IsPathSeg(TS[i])}       \* {name:path}
-PathInside == {i \in DOMAIN TS : HasPathField(TS[i])}    \* a path field anywhere in the segment
+(* per-segment facts, tabulated once (constant level).  TS is read once per table (LET): an instance
+   may define it by an expression that is expensive to evaluate before TLC has cached it *)
+KindOf  == LET ts == TS IN [i \in DOMAIN ts |-> Kind(ts[i])]
+RankOf  == LET ts == TS IN [i \in DOMAIN ts |-> Rank(ts[i])]
+ShapeOf == LET ts == TS IN [i \in DOMAIN ts |-> Shape(ts[i])]
+PathSegs   == LET ts == TS IN {i \in DOMAIN ts : IsPathSeg(ts[i])}       \* {name:path}
+PathInside == LET ts == TS IN {i \in DOMAIN ts : HasPathField(ts[i])}    \* a path field anywhere in the segment
+MatchAt(i, s) == MatchK(KindOf[i], TS[i], s)                              \* = Match(TS[i], s)
 Last(s) == s[Len(s)]
 Front(s) == SubSeq(s, 1, Len(s) - 1)
 Range(s) == {s[i] : i \in DOMAIN s}
@@ -76,7 +78,7 @@ Dfs(t, pre, path, params) ==
                  THEN (IF t[n].res # NoRes      \* a trailing path field swallows the rest of the path
                        THEN Hit(t, n, params \o <<Cap(seg.items[1].f, Val("str", JoinSlash(SubSeq(path, lvl, Len(path)))))>>)
                        ELSE Try(i + 1))
-                 ELSE LET m == Match(seg, path[lvl]) IN
+                 ELSE LET m == MatchAt(s, path[lvl]) IN
                       IF ~m.ok THEN Try(i + 1)
                       ELSE LET deeper == IF Len(path) > lvl THEN Dfs(t, n, path, params \o m.caps) ELSE Miss IN
                            IF deeper.found THEN deeper
@@ -95,8 +97,8 @@ BadSeg(ts) ==                                  \* a segment no template may cont
             \/ (it.c.k # "" /\ it.c.k \notin KnownConverters)
             \/ (it.c.k = "int" /\ it.c.nd # -1 /\ it.c.nd < 1)        \* converter cannot be instantiated
        ELSE \E j \in DOMAIN it.v : it.v[j] \in Blank                   \* white space in literal text
-BadSegs == {i \in DOMAIN TS : BadSeg(TS[i])}
-NamesOf == [i \in DOMAIN TS |-> FieldNames(TS[i])]
+BadSegs == LET ts == TS IN {i \in DOMAIN ts : BadSeg(ts[i])}
+NamesOf == LET ts == TS IN [i \in DOMAIN ts |-> FieldNames(ts[i])]
 Invalid(tp) ==
     \/ \E i \in DOMAIN tp : tp[i] \in BadSegs
     \/ \E i, j \in DOMAIN tp : i < j /\ NamesOf[tp[i]] \cap NamesOf[tp[j]] # {}     \* duplicate field name
@@ -165,13 +167,13 @@ RefTree(acc) == [n \in RefNodes(acc) |-> [res |-> RefRes(acc, n), kids |-> RefKi
 Routes(acc) == {n \in RefNodes(acc) : RefRes(acc, n) # NoRes}
 TmplMatches(tp, p) ==
     IF Last(tp) \in PathSegs
-    THEN Len(p) >= Len(tp) /\ \A i \in 1..(Len(tp) - 1) : Match(Seg(tp[i]), p[i]).ok
-    ELSE Len(p) = Len(tp) /\ \A i \in 1..Len(tp) : Match(Seg(tp[i]), p[i]).ok
+    THEN Len(p) >= Len(tp) /\ \A i \in 1..(Len(tp) - 1) : MatchAt(tp[i], p[i]).ok
+    ELSE Len(p) = Len(tp) /\ \A i \in 1..Len(tp) : MatchAt(tp[i], p[i]).ok
 TmplParams(tp, p) ==
     Concat([i \in DOMAIN tp |->
               IF tp[i] \in PathSegs
               THEN <<Cap(Seg(tp[i]).items[1].f, Val("str", JoinSlash(SubSeq(p, i, Len(p)))))>>
-              ELSE Match(Seg(tp[i]), p[i]).caps])
+              ELSE MatchAt(tp[i], p[i]).caps])
 FirstAt(acc, n) == CHOOSE i \in DOMAIN acc : IsPrefixOf(n, acc[i].t) /\ \A j \in 1..(i - 1) : ~IsPrefixOf(n, acc[j].t)
 Before(acc, a, b) ==                       \* route a is visited before route b (a # b, neither a prefix of the other)
     LET k == CHOOSE k \in 1..Len(a) : a[k] # b[k] /\ \A j \in 1..(k - 1) : a[j] = b[j]
